@@ -47,7 +47,7 @@ Fresh ==
   /\ snapOf' = <<>> /\ iterOf' = <<>> /\ acks' = {} /\ ids' = {}
 
 TraceInit ==
-  /\ l = 1 /\ viol = <<>> /\ runInfo = [run |-> 0, seed |-> 0, tag |-> ""] /\ nk = 0
+  /\ l = 1 /\ viol = <<>> /\ runInfo = [run |-> 0, seed |-> 0, tag |-> "", faults |-> FALSE] /\ nk = 0
   /\ hist = <<>> /\ seq = 0 /\ ends = {0} /\ pend = <<>> /\ lastLo = <<>>
   /\ snapOf = <<>> /\ iterOf = <<>> /\ acks = {} /\ ids = {}
 
@@ -59,7 +59,10 @@ TReset ==
   /\ IF runInfo.run = 0 THEN TRUE ELSE Report
   /\ Fresh
   /\ l' = l + 1 /\ viol' = <<>> /\ nk' = Ev.nk
-  /\ runInfo' = [run |-> Ev.run, seed |-> Ev.seed, tag |-> Ev.tag]
+  \* faults: the driver injects a filesystem failure in this run (failing writes are expected;
+  \* what is judged is that everybody gets the result of his own commit)
+  /\ runInfo' = [run |-> Ev.run, seed |-> Ev.seed, tag |-> Ev.tag,
+                 faults |-> IF "faults" \in DOMAIN Ev THEN Ev.faults ELSE FALSE]
 
 TEnd ==
   /\ IsEv("End")
@@ -138,10 +141,13 @@ TRet ==
        [] p.op \in {"put", "del", "batch"} ->
             /\ viol' = viol \o
                  ((IF Ev.ok /\ ~p.committed
-                   THEN V(<<"C05">>, "AckWithoutCommit", SetToSeq(PutVals(p.ops)), 0) ELSE <<>>)
+                   THEN V(IF runInfo.faults THEN <<"C05", "C08">> ELSE <<"C05">>, "AckWithoutCommit",
+                          SetToSeq(PutVals(p.ops)), 0) ELSE <<>>)
                   \o (IF p.committed /\ p.cok # Ev.ok
-                      THEN V(<<"C05">>, "NotOwnResult", SetToSeq(PutVals(p.ops)), 0) ELSE <<>>)
-                  \o (IF ~Ev.ok THEN V(<<"C05", "C09">>, "WriteFailed", <<>>, 0) ELSE <<>>))
+                      THEN V(IF runInfo.faults THEN <<"C05", "C08">> ELSE <<"C05">>, "NotOwnResult",
+                             SetToSeq(PutVals(p.ops)), 0) ELSE <<>>)
+                  \o (IF ~Ev.ok /\ ~runInfo.faults
+                      THEN V(<<"C05", "C09">>, "WriteFailed", <<>>, 0) ELSE <<>>))
             /\ acks' = acks \cup (IF Ev.ok THEN PutVals(p.ops) ELSE {})
             /\ UNCHANGED lastLo
        [] OTHER -> UNCHANGED <<viol, lastLo, acks>>
